@@ -24,4 +24,6 @@ def run(P, R, L):
     K.pair12_file_level_pairs(P, R, L, only={"tables::table::TwoLevelIterator"})
     R.clause("OWN-10", "every open table has its own block-cache partition id and caches blocks under (id, block offset)")
     K.own10_cache_partitions(P, R, L)
+    R.clause("OWN-11", "the table cache looks up, opens and caches a table under the one file number that was asked for")
+    K.own11_table_cache_key(P, R, L)
     R.not_decided += ["prefix compression, separators, seek positions, iteration order (computed bytes)"]
